@@ -13,3 +13,8 @@ open Cascette.Props.C17
 #print axioms latest_is_loadable
 #print axioms lru_file_codec_roundtrip
 #print axioms ptr_zero_key_reload_witness
+#print axioms ptr_refines_seq
+#print axioms ptr_no_capacity_loss
+#print axioms ptr_touch_present_mru
+#print axioms ptr_refines_textbook_no_reload
+#print axioms ptr_refines_textbook_partial
